@@ -55,6 +55,9 @@ def validate_options(options):  # noqa: C901
                                 '{!r}'.format(truncate_strings))
         options['truncate_strings'] = truncate_strings
         options['truncate_char'] = options.get('truncate_char', '[...]')
+        if not isinstance(options['truncate_char'], str):
+            raise SQLParseError('Invalid value for truncate_char: '
+                                '{!r}'.format(options['truncate_char']))
 
     indent_columns = options.get('indent_columns', False)
     if indent_columns not in [True, False]:
